@@ -176,6 +176,20 @@ class Report:
                 known_hits.setdefault(id(f), [f, 0, []])
                 known_hits[id(f)][1] += count
                 known_hits[id(f)][2].append('%s / %s' % (target, clause))
+                # keep the committed replay artefact of a listed finding usable: its choice list / case index changes
+                # whenever the harness gets a new scheduling point or case (only in runs that write to the tree's own replay/)
+                if f.get('replay') and 'VERIF_REPLAY_DIR' not in os.environ:
+                    kp = os.path.join(VERIF, f['replay'])
+                    try:
+                        old = json.load(open(kp))
+                    except Exception:
+                        old = None
+                    if old is None or (old.get('target') == target and old.get('clause') == clause and old.get('index') != idx):
+                        os.makedirs(os.path.dirname(kp), exist_ok=True)
+                        with open(kp, 'w') as fh:
+                            json.dump({'property': self.prop, 'target': target, 'clause': clause, 'index': idx,
+                                       'config': config, 'case': desc, 'count_this_run': count,
+                                       'other_cases': [c[1] for c in cases[1:]]}, fh, indent=1)
                 continue
             # replay before report
             confirmed = True
